@@ -415,6 +415,17 @@ Qed.
 Lemma skip_ws_length s : (length (skip_ws s) <= length s)%nat.
 Proof. induction s as [|c r IH]; simpl; [lia|]. destruct (is_ws c); simpl; lia. Qed.
 
+Lemma tail_after_dest_no_fuel fuel total d rest : tail_after_dest fuel total d rest <> TailFuel.
+Proof.
+  unfold tail_after_dest. cbv zeta.
+  destruct (skip_ws rest) as [|q r2].
+  - destruct (skip_ws []); [discriminate|]. destruct (_ =? 41); discriminate.
+  - destruct ((q =? 39) || (q =? 34) || (q =? 40)).
+    + destruct (title_body _ q _ r2 []) as [[t rest2]|]; [|discriminate].
+      destruct (skip_ws rest2); [discriminate|]. destruct (_ =? 41); discriminate.
+    + destruct (skip_ws (q :: r2)); [discriminate|]. destruct (_ =? 41); discriminate.
+Qed.
+
 Theorem parse_link_tail_total text : parse_link_tail text <> TailFuel.
 Proof.
   unfold parse_link_tail.
@@ -423,22 +434,9 @@ Proof.
   destruct rest0 as [|x0 rest1]; [discriminate|].
   destruct (skip_ws (x0 :: rest1)) as [|c r] eqn:S1; [discriminate|].
   pose proof (skip_ws_length (x0 :: rest1)) as L1. rewrite S1 in L1.
-  destruct (c =? 60).
-  - destruct (angle_dest _ r []) as [[d rest]|].
-    + destruct (skip_ws rest) as [|q r2].
-      * destruct (skip_ws []); [discriminate|]. destruct (_ =? 41); discriminate.
-      * destruct ((q =? 39) || (q =? 34) || (q =? 40)).
-        -- destruct (title_body _ q _ r2 []) as [[t rest2]|]; [|discriminate].
-           destruct (skip_ws rest2); [discriminate|]. destruct (_ =? 41); discriminate.
-        -- destruct (skip_ws (q :: r2)); [discriminate|]. destruct (_ =? 41); discriminate.
-    + discriminate.
+  cbv zeta. destruct (c =? 60).
+  - destruct (angle_dest _ r []) as [[d rest]|]; [apply tail_after_dest_no_fuel|discriminate].
   - destruct (bare_dest _ (c :: r) [] 0) as [[[d rest] bal]|] eqn:B.
-    + destruct bal; [|discriminate].
-      destruct (skip_ws rest) as [|q r2].
-      * destruct (skip_ws []); [discriminate|]. destruct (_ =? 41); discriminate.
-      * destruct ((q =? 39) || (q =? 34) || (q =? 40)).
-        -- destruct (title_body _ q _ r2 []) as [[t rest2]|]; [|discriminate].
-           destruct (skip_ws rest2); [discriminate|]. destruct (_ =? 41); discriminate.
-        -- destruct (skip_ws (q :: r2)); [discriminate|]. destruct (_ =? 41); discriminate.
+    + destruct bal; [apply tail_after_dest_no_fuel|discriminate].
     + exfalso. revert B. apply bare_dest_total. simpl in *. lia.
 Qed.
